@@ -827,6 +827,22 @@ func (w *vxC16World) classify(ds []vxC16Disc) error {
 				}
 			}
 		}
+		// (2c) the other face of (2)/(2b): the HostInfo that left the address is the one the policy still files
+		// under it, and while it counts as up it is offered in place of the present owner - accepted only next to
+		// the refusal of that owner (an offer-missing at the same address in the same set of discrepancies)
+		if cls == "" && d.kind == "offer-extra" && w.s.ring.getHost(d.id) == nil {
+			for _, o := range ds {
+				if o.kind == "offer-missing" && o.ip == d.ip && o.id != d.id {
+					if cur := w.s.ring.getHost(o.id); cur != nil {
+						for _, ph := range vxC16PolicyHosts(w.s.policy) {
+							if ph.HostID() == d.id && ph.ConnectAddress().Equal(cur.ConnectAddress()) {
+								cls = "reuse"
+							}
+						}
+					}
+				}
+			}
+		}
 		// (4) an UP event started a connection to a host which the refresh of the same batch then removed
 		// (or moved): pool.fill's "go handleNodeConnected(host)" may run after removeHost and puts the
 		// removed HostInfo back into the policy (HostUp = AddHost), where nothing removes it any more
